@@ -175,10 +175,34 @@ IMPORTS = {
  "C17": "Recv copies the body before the message is released (from C01)",
  "C20": "main exits non-zero on every path after a failed Run (must-pass); send-interval sentinel tested as < 0",
 }
+# rounds 6 and 7: rules added after the seeded changes of those rounds, and the imports that attribute them
+ROUND67 = {
+ "C01": "cooked BUS discards a stale header of any length (path predicate compared over header lengths, from C08); delivered message private to its receiver and message ownership (from C17)",
+ "C02": "queue pops: a function that shortens a queue field at one end reads the element at the same end and removes it on every path; Recv copies (from C01)",
+ "C03": "Recv copies (from C01); retained request not released under REQ (E5, from C17)",
+ "C04": "sweep completeness (RemovePipe's loop over contexts has no early exit, syntax-tree rule keyed by collection type); queue pops; attach/detach protocol (from C13); Send/Recv copies (from C01)",
+ "C05": "protocol told of every departure (from C13)",
+ "C06": "one connection per dialer (redial decision and pipe.Close notification, from C14); Recv copies (from C01)",
+ "C07": "sweep completeness of the survey fan-out loops",
+ "C08": "one connection per dialer (from C14); inproc hands each peer its own copy (from C01); receive queue read at use (from C19)",
+ "C09": "transport Send never writes through the message (from C17); request-id marker (from C03)",
+ "C10": "sweep completeness of every Close loop (21 frozen sites, syntax-tree rule); no goroutine started in AddPipe on a path that can still return an error (forward reachability from each go statement to error returns)",
+ "C11": "application hooks called with no internal lock held (from C13)",
+ "C12": "refused Device starts nothing (from C19); Close affects only its own registration (from C10); fail-no-peers channel replaced after close (from C18)",
+ "C13": "AddPipe only on the !closing edge; queue pops; who-may-write tables of the socket's hook and endpoint lists; per-pipe option maps freshly made",
+ "C14": "attach protocol (from C13); every handshake outcome queued and broadcast on every path (must-pass, from C16); dialer list writers (from C13); Cond wake-ups in inproc (from C10)",
+ "C15": "websocket dialer offers a fresh one-element sub-protocol list; pool size classes (from C01); handshake results popped once (from C13)",
+ "C16": "receive limit applied to the pipe before Handshaker.Start (value-flow: SetOption on the pipe, configuring helper, or helper returning configured pipes); queue room for receivers that re-queue under the lock (from C19); hop count is the whole word (from C09)",
+ "C17": "inproc copies with or without header (from C01)",
+ "C18": "deadline timer armed exactly when the deadline is positive (no further condition on another time); only cancel (and the receiver, for the context it looked up) stops a REQ deadline timer (who-may-call on Timer.Stop per field); Cond discipline of REQ; timer/deadline fields guarded-by (from C11); queue-swap wake-up (from C19)",
+ "C19": "option propagated to every dialer and listener (sweep completeness); switch options applied for both values; endpoint inherits the receive limit exactly when its options do not set it; best-effort takes effect (from C18)",
+ "C20": "set-once setters record the value on every successful return (way-sensitive for single-exit form); --file stores a whole-file read; each timeout applied from its own field",
+}
 for k, (t, x) in EXTRA.items():
     tech, text, note, ref = CLAIMED[k]
     imp = IMPORTS.get(k)
-    CLAIMED[k] = (tech + t + ("; shared mechanisms decided where they are anchored and imported: " + imp if imp else ""), text + x, note, ref)
+    r67 = ROUND67.get(k)
+    CLAIMED[k] = (tech + t + ("; shared mechanisms decided where they are anchored and imported: " + imp if imp else "") + ("; added after seeded rounds 6-7: " + r67 if r67 else ""), text + x, note, ref)
 
 NOT_YET = "check not built yet (work in progress; planned static rules in DESIGN.md section 4)"
 NA = {}
